@@ -15,6 +15,9 @@ cp $SRC/patch.diff $OUT/patch.diff
 cp $SRC/demo_test.go $OUT/demo_test.go
 cp $SRC/README.md $OUT/README.agent.md 2>/dev/null
 cp $SRC/demo_test.go $WT/$DEST
+# the repository's chain tests use the memorydb under $HOME/.aergo/data, which concurrent runs would share
+export GOCACHE=$(go env GOCACHE) GOPATH=$(go env GOPATH) GOMODCACHE=$(go env GOMODCACHE)
+OLDHOME=$HOME; mkdir -p $WT/.home; export HOME=$WT/.home
 OV=""
 if [ "${KIT:-0}" = "1" ]; then python3 /verif/tools/buildkit/mkoverlay.py $WT >/dev/null && OV="-overlay $WT/.overlay/overlay.json"; fi
 R0=$(cd $WT && go test -vet=off -count=1 $OV -run "$RUN" ./$PKG/ 2>&1 | tail -3)
@@ -26,7 +29,7 @@ echo "$R1" | grep -q "^ok" && D1=pass || D1=fail
 rm -f $WT/$DEST
 R2=$(cd $WT && go test -vet=off -count=1 $OV ${SKIP:+-skip "$SKIP"} ./$PKG/ 2>&1 | tail -2)
 echo "$R2" | grep -q "^ok" && D2=pass || D2=fail
-rm -rf $WT/.overlay
+rm -rf $WT/.overlay $WT/.home; export HOME=$OLDHOME
 echo "$NAME: demo-without-patch=$D0 demo-with-patch=$D1 existing-tests-with-patch=$D2"
 RES=""
 for id in "$@"; do
